@@ -8,6 +8,7 @@ mod blackbox;
 mod cputime;
 mod crumb;
 mod eng;
+#[cfg(feature = "search")]
 mod graph;
 mod json;
 mod par;
@@ -15,9 +16,11 @@ mod props;
 mod refchess;
 mod report;
 mod roots;
+#[cfg(feature = "search")]
 mod searchref;
 mod watch;
 
+#[cfg(feature = "search")]
 use props::posprops::{self, Which};
 
 fn arg(args: &[String], name: &str) -> Option<String> {
@@ -50,7 +53,61 @@ fn main() {
     let tier = arg(&args, "--tier").unwrap_or_else(|| "quick".into());
     let seed: u64 = arg(&args, "--seed").and_then(|s| s.parse().ok()).unwrap_or(0);
     let out = arg(&args, "--out").unwrap_or_else(|| "/dev/null".into());
-    let code = match args[0].as_str() {
+    let cmd = args[0].clone();
+    let code = dispatch(&cmd, &args, &tier, seed, &out);
+    std::process::exit(code);
+}
+
+/// The harness is built once per group of properties (cargo features), so that a change of one
+/// public signature in the repository can only stop the checks that really call it from building.
+fn dispatch(cmd: &str, args: &[String], tier: &str, seed: u64, out: &str) -> i32 {
+    let tier = tier.to_string();
+    let out = out.to_string();
+    let args: Vec<String> = args.to_vec();
+    if let Some(c) = dispatch_base(cmd, &args, &tier, seed, &out) {
+        return c;
+    }
+    #[cfg(feature = "search")]
+    if let Some(c) = dispatch_search(cmd, &args, &tier, seed, &out) {
+        return c;
+    }
+    #[cfg(feature = "c10")]
+    if let Some(c) = dispatch_c10(cmd, &args, &tier, seed, &out) {
+        return c;
+    }
+    #[cfg(feature = "c11")]
+    if let Some(c) = dispatch_c11(cmd, &args, &tier, seed, &out) {
+        return c;
+    }
+    #[cfg(feature = "c12")]
+    if let Some(c) = dispatch_c12(cmd, &args, &tier, seed, &out) {
+        return c;
+    }
+    #[cfg(feature = "c14")]
+    if let Some(c) = dispatch_c14(cmd, &args, &tier, seed, &out) {
+        return c;
+    }
+    #[cfg(feature = "c15")]
+    if let Some(c) = dispatch_c15(cmd, &args, &tier, seed, &out) {
+        return c;
+    }
+    #[cfg(feature = "c04")]
+    if let Some(c) = dispatch_c04(cmd, &args, &tier, seed, &out) {
+        return c;
+    }
+    #[cfg(feature = "bb")]
+    if let Some(c) = dispatch_bb(cmd, &args, &tier, seed, &out) {
+        return c;
+    }
+    eprintln!("unknown command {:?} (or not built into this binary)", cmd);
+    2
+}
+
+fn dispatch_base(cmd: &str, args: &[String], tier: &String, seed: u64, out: &String) -> Option<i32> {
+    let args: Vec<String> = args.to_vec();
+    let tier = tier.clone();
+    let out = out.clone();
+    Some(match cmd {
         "info" => {
             println!("bound to {} modules: {:?}", env!("FLOUNDER_REPO_BOUND"), REPO_MODULES);
             0
@@ -65,6 +122,16 @@ fn main() {
                 2
             }
         },
+        _ => return None,
+    })
+}
+
+#[cfg(feature = "search")]
+fn dispatch_search(cmd: &str, args: &[String], tier: &String, seed: u64, out: &String) -> Option<i32> {
+    let args: Vec<String> = args.to_vec();
+    let tier = tier.clone();
+    let out = out.clone();
+    Some(match cmd {
         "c01" => {
             posprops::run(Which::C01, &tier, seed, &out);
             0
@@ -96,40 +163,6 @@ fn main() {
         "c06-history" => props::c0607::replay_history(&arg(&args, "--fen").unwrap(), arg(&args, "--depth").unwrap().parse().unwrap(), arg(&args, "--at").unwrap().parse().unwrap()),
         "c07-real" => props::c0607::replay_real(&engine_plain(&args), &arg(&args, "--prior").unwrap_or_default(), &arg(&args, "--target").unwrap(), &arg(&args, "--go").unwrap(), arg(&args, "--budget").unwrap().parse().unwrap()),
         "c07-go" => props::c0607::replay_go(&arg(&args, "--cmds").unwrap()),
-        "c10" => {
-            props::c10::run(&tier, seed, &out);
-            0
-        }
-        "c10-one" => props::c10::replay_slider(&arg(&args, "--piece").unwrap(), arg(&args, "--sq").unwrap().parse().unwrap(), arg(&args, "--occ").unwrap().parse().unwrap()),
-        "c10-between" => props::c10::replay_between(arg(&args, "--from").unwrap().parse().unwrap(), arg(&args, "--to").unwrap().parse().unwrap()),
-        "c11" => {
-            props::c11::run(&tier, seed, &out);
-            0
-        }
-        "c11-one" => props::c11::replay_one(&arg(&args, "--fen").unwrap(), seed),
-        "c14" => {
-            props::c14::run(&tier, seed, &out);
-            0
-        }
-        "c14-one" => props::c14::replay_one(&arg(&args, "--fen").unwrap()),
-        "c14-sig" => props::c14::replay_sig(&arg(&args, "--fen").unwrap()),
-        "c14-seq" => props::c14::replay_seq(arg(&args, "--a").unwrap().parse().unwrap(), arg(&args, "--b").unwrap().parse().unwrap(), arg(&args, "--c").unwrap().parse().unwrap()),
-        "c12" => {
-            props::c12::run(&tier, seed, &out);
-            0
-        }
-        "c12-one" => props::c12::replay(&arg(&args, "--stm").unwrap(), &arg(&args, "--line").unwrap(), arg(&args, "--own-time").unwrap().parse().unwrap(), arg(&args, "--own-inc").unwrap().parse().unwrap()),
-        "c15" => {
-            props::c15::run(&tier, seed, &out);
-            0
-        }
-        "c15-one" => props::c15::replay(&arg(&args, "--seq").unwrap(), seed),
-        "c04" => {
-            props::c04::run(&tier, seed, &out);
-            0
-        }
-        "c04-one" => props::c04::replay(&arg(&args, "--cmds").unwrap()),
-        "c04-long" => props::c04::replay_very_long(arg(&args, "--plies").unwrap().parse().unwrap()),
         "c08" => {
             props::c08::run(&tier, seed, &out);
             0
@@ -205,6 +238,118 @@ fn main() {
             0
         }
         "c09-one" => props::c09::replay(&arg(&args, "--start").unwrap(), &arg(&args, "--moves").unwrap_or_default(), arg(&args, "--prev-moves").as_deref()),
+        "c01-hist" => posprops::replay_hist(Which::C01, &arg(&args, "--fens").unwrap()),
+        "c02-hist" => posprops::replay_hist(Which::C02, &arg(&args, "--fens").unwrap()),
+        "c17-hist" => posprops::replay_hist(Which::C17, &arg(&args, "--fens").unwrap()),
+        "c01-one" => posprops::replay_one(Which::C01, &arg(&args, "--fen").unwrap()),
+        "c02-one" => posprops::replay_one(Which::C02, &arg(&args, "--fen").unwrap()),
+        "c17-trace-one" => posprops::replay_trace_one(&arg(&args, "--fen").unwrap()),
+        "c17-exam-one" => posprops::replay_exam_one(&arg(&args, "--fen").unwrap(), &arg(&args, "--node").unwrap(), arg(&args, "--cap").and_then(|c| c.parse().ok()).unwrap_or(800)),
+        "c17-one" => posprops::replay_one(Which::C17, &arg(&args, "--fen").unwrap()),
+        _ => return None,
+    })
+}
+
+#[cfg(feature = "c10")]
+fn dispatch_c10(cmd: &str, args: &[String], tier: &String, seed: u64, out: &String) -> Option<i32> {
+    let args: Vec<String> = args.to_vec();
+    let tier = tier.clone();
+    let out = out.clone();
+    Some(match cmd {
+        "c10" => {
+            props::c10::run(&tier, seed, &out);
+            0
+        }
+        "c10-one" => props::c10::replay_slider(&arg(&args, "--piece").unwrap(), arg(&args, "--sq").unwrap().parse().unwrap(), arg(&args, "--occ").unwrap().parse().unwrap()),
+        "c10-between" => props::c10::replay_between(arg(&args, "--from").unwrap().parse().unwrap(), arg(&args, "--to").unwrap().parse().unwrap()),
+        _ => return None,
+    })
+}
+
+#[cfg(feature = "c11")]
+fn dispatch_c11(cmd: &str, args: &[String], tier: &String, seed: u64, out: &String) -> Option<i32> {
+    let args: Vec<String> = args.to_vec();
+    let tier = tier.clone();
+    let out = out.clone();
+    Some(match cmd {
+        "c11" => {
+            props::c11::run(&tier, seed, &out);
+            0
+        }
+        "c11-one" => props::c11::replay_one(&arg(&args, "--fen").unwrap(), seed),
+        _ => return None,
+    })
+}
+
+#[cfg(feature = "c12")]
+fn dispatch_c12(cmd: &str, args: &[String], tier: &String, seed: u64, out: &String) -> Option<i32> {
+    let args: Vec<String> = args.to_vec();
+    let tier = tier.clone();
+    let out = out.clone();
+    Some(match cmd {
+        "c12" => {
+            props::c12::run(&tier, seed, &out);
+            0
+        }
+        "c12-one" => props::c12::replay(&arg(&args, "--stm").unwrap(), &arg(&args, "--line").unwrap(), arg(&args, "--own-time").unwrap().parse().unwrap(), arg(&args, "--own-inc").unwrap().parse().unwrap()),
+        _ => return None,
+    })
+}
+
+#[cfg(feature = "c14")]
+fn dispatch_c14(cmd: &str, args: &[String], tier: &String, seed: u64, out: &String) -> Option<i32> {
+    let args: Vec<String> = args.to_vec();
+    let tier = tier.clone();
+    let out = out.clone();
+    Some(match cmd {
+        "c14" => {
+            props::c14::run(&tier, seed, &out);
+            0
+        }
+        "c14-one" => props::c14::replay_one(&arg(&args, "--fen").unwrap()),
+        "c14-sig" => props::c14::replay_sig(&arg(&args, "--fen").unwrap()),
+        "c14-seq" => props::c14::replay_seq(arg(&args, "--a").unwrap().parse().unwrap(), arg(&args, "--b").unwrap().parse().unwrap(), arg(&args, "--c").unwrap().parse().unwrap()),
+        _ => return None,
+    })
+}
+
+#[cfg(feature = "c15")]
+fn dispatch_c15(cmd: &str, args: &[String], tier: &String, seed: u64, out: &String) -> Option<i32> {
+    let args: Vec<String> = args.to_vec();
+    let tier = tier.clone();
+    let out = out.clone();
+    Some(match cmd {
+        "c15" => {
+            props::c15::run(&tier, seed, &out);
+            0
+        }
+        "c15-one" => props::c15::replay(&arg(&args, "--seq").unwrap(), seed),
+        _ => return None,
+    })
+}
+
+#[cfg(feature = "c04")]
+fn dispatch_c04(cmd: &str, args: &[String], tier: &String, seed: u64, out: &String) -> Option<i32> {
+    let args: Vec<String> = args.to_vec();
+    let tier = tier.clone();
+    let out = out.clone();
+    Some(match cmd {
+        "c04" => {
+            props::c04::run(&tier, seed, &out);
+            0
+        }
+        "c04-one" => props::c04::replay(&arg(&args, "--cmds").unwrap()),
+        "c04-long" => props::c04::replay_very_long(arg(&args, "--plies").unwrap().parse().unwrap()),
+        _ => return None,
+    })
+}
+
+#[cfg(feature = "bb")]
+fn dispatch_bb(cmd: &str, args: &[String], tier: &String, seed: u64, out: &String) -> Option<i32> {
+    let args: Vec<String> = args.to_vec();
+    let tier = tier.clone();
+    let out = out.clone();
+    Some(match cmd {
         "c03" => {
             props::c03::run(&tier, seed, &out, &engine_hooks(&args));
             0
@@ -225,18 +370,6 @@ fn main() {
             let exe = if which == "hooks on" { engine_hooks(&args) } else { engine_plain(&args) };
             props::c16::replay(&arg(&args, "--input").unwrap_or_default(), arg(&args, "--final-newline").as_deref() != Some("no"), &exe, &which)
         }
-        "c01-hist" => posprops::replay_hist(Which::C01, &arg(&args, "--fens").unwrap()),
-        "c02-hist" => posprops::replay_hist(Which::C02, &arg(&args, "--fens").unwrap()),
-        "c17-hist" => posprops::replay_hist(Which::C17, &arg(&args, "--fens").unwrap()),
-        "c01-one" => posprops::replay_one(Which::C01, &arg(&args, "--fen").unwrap()),
-        "c02-one" => posprops::replay_one(Which::C02, &arg(&args, "--fen").unwrap()),
-        "c17-trace-one" => posprops::replay_trace_one(&arg(&args, "--fen").unwrap()),
-        "c17-exam-one" => posprops::replay_exam_one(&arg(&args, "--fen").unwrap(), &arg(&args, "--node").unwrap(), arg(&args, "--cap").and_then(|c| c.parse().ok()).unwrap_or(800)),
-        "c17-one" => posprops::replay_one(Which::C17, &arg(&args, "--fen").unwrap()),
-        other => {
-            eprintln!("unknown command {:?}", other);
-            2
-        }
-    };
-    std::process::exit(code);
+        _ => return None,
+    })
 }
